@@ -300,7 +300,7 @@ _ASSUME = ['sha256(...).hexdigest() replaced by a stub returning 64 lowercase he
            'TaggedSeries executed as a message-stripped shadow regenerated from the current source; replay on the real class with os.path.normpath']
 
 HARNESSES = [
-  H('C14_encode', quick=dict(timeout=280, shards=[('len%d' % n, 'len(metric) == %d' % n) for n in range(4)] + [('len4_h%d' % h, 'len(metric) == 4 and hash_only == %s' % bool(h)) for h in (0, 1)]),
+  H('C14_encode', quick=dict(timeout=420, shards=[('len%d' % n, 'len(metric) == %d' % n) for n in range(4)] + [('len4_h%d' % h, 'len(metric) == 4 and hash_only == %s' % bool(h)) for h in (0, 1)]),
     thorough=dict(timeout=1500, shards=[('len%d' % n, 'len(metric) == %d' % n) for n in range(5)] + [('len5_h%d' % h, 'len(metric) == 5 and hash_only == %s' % bool(h)) for h in (0, 1)], extra_pre=[]),
     covers=['tagged', 'plain'], replay='replay_encode', twin_pre=['len(metric) <= 2'], encodes=['carbon.util:TaggedSeries.encode'], assumptions=_ASSUME),
   H('C14_whisper_path', quick=dict(timeout=280, shards=[('d%d' % d, 'di == %d' % d) for d in range(len(DATA_DIRS))]),
